@@ -239,19 +239,44 @@ def rule_literal_tables(ctx, fx, config):
     ctx.check(any(last_seg(fx.callee(t)) == "to_ascii_lowercase" for b, t in pf.calls()), "TABLE", "C06:TABLE:special-floats:case", "special floats are matched case-insensitively", "special floats no longer lower-cased before matching", config, ctx.where(pf))
     rd = fx.fn(PS + "radix_and_digits")
     ctx.saw(rd)
-    c4 = str_compare_consts(rd, fx)
+    # prefix spellings: every string constant of the shape 0<letter|0> that radix_and_digits, its closures or the crate-local
+    # helpers it calls use (as an argument of strip_prefix / starts_with, directly or passed to such a helper)
+    fam = list(fx.family(rd))
+    for g in list(fam):
+        for b, t in g.calls():
+            h = fx.local_callee(t)
+            if h is not None and h.npath.startswith(PS) and h not in fam:
+                fam += list(fx.family(h))
     pref = set()
-    for g in fx.family(rd):
-        cc = str_compare_consts(g, fx)
-        pref |= cc.get("strip_prefix", set())
-    ctx.check(pref == {"0x", "0X", "0o", "0O", "0b", "0B"}, "TABLE", "C06:TABLE:radix-prefixes", "radix prefixes == {0x,0X,0o,0O,0b,0B}", "radix prefix set changed: %s" % sorted(pref), config, ctx.where(rd))
-    # legacy octal only under the flag
-    okl = False
+    for g in fam:
+        for v in str_consts(g):
+            if re.match(r"^0[A-Za-z0]$", v):
+                pref.add(v)
+    ctx.check(pref - {"00"} == {"0x", "0X", "0o", "0O", "0b", "0B"}, "TABLE", "C06:TABLE:radix-prefixes", "radix prefixes == {0x,0X,0o,0O,0b,0B} (+ the legacy `00`)", "radix prefix set changed: %s" % sorted(pref), config, ctx.where(rd))
+    # legacy octal only under the flag: whichever way round the two tests are written, a radix-8 result that lies behind the
+    # `00` prefix test lies behind the `legacy_octal == true` edge as well
+    t00 = []
+    for b, t in rd.calls():
+        if last_seg(fx.callee(t)) in ("starts_with", "strip_prefix") and len(t["args"]) > 1:
+            a = rd.sym_operand(t["args"][1])
+            if a[0] == "const" and a[1] == "00":
+                t00.append(b)
+    leg = []
     for b, sym, tt, ff in bool_switches(rd):
-        if render(sym) == "legacy_octal":
-            st = [b2 for b2, t in rd.calls() if last_seg(fx.callee(t)) == "starts_with"]
-            okl = all(rd.edge_dominates(b, tt, x) for x in st) and bool(st)
-    ctx.check(okl, "TABLE", "C06:TABLE:legacy-octal-gated", "the `00` prefix is examined only when legacy_octal is set", "the legacy-octal prefix is recognised without the option", config, ctx.where(rd))
+        with rd.deep():
+            r = render(rd.sym_operand(rd.blocks[b]["term"]["o"]))
+        if r == "legacy_octal":
+            leg.append((b, tt))
+        elif r == "Not(legacy_octal)":
+            leg.append((b, ff))
+    res8 = []
+    for b, i, s_ in rd.stmts():
+        if s_["k"] == "assign" and s_["rv"]["k"] == "aggr" and s_["rv"].get("ak") == "tuple" and s_["rv"]["ops"]:
+            v0 = rd.sym_operand(s_["rv"]["ops"][0])
+            if v0[:2] == ("const", 8) and any(rd.dominates(x, b) for x in t00):
+                res8.append(b)
+    okl = bool(t00) and bool(leg) and bool(res8) and all(any(rd.edge_dominates(sb, e, b) for sb, e in leg) for b in res8)
+    ctx.check(okl, "TABLE", "C06:TABLE:legacy-octal-gated", "a radix-8 result behind the `00` prefix test requires legacy_octal (%d result site(s))" % len(res8), "the legacy-octal prefix is recognised without the option", config, ctx.where(rd))
     # radix constants paired with prefixes
     ints = int_consts(rd)
     ctx.check({16, 8, 2, 10} <= ints, "TABLE", "C06:TABLE:radix-values", "radices 16/8/2/10 present", "radix constants changed: %s" % sorted(ints), config, ctx.where(rd))
